@@ -83,7 +83,7 @@ func init() {
 // ---- cases ---------------------------------------------------------------------------------------
 
 type c19Case struct {
-	Fam  string          `json:"f"`           // fs | clause | fn | load | big
+	Fam  string          `json:"f"`           // fs | clause | fn | huge | load | big
 	Fmt  string          `json:"m,omitempty"` // csv fixed ltsv json jsonl
 	Via  string          `json:"v,omitempty"` // data | file | inline | auto
 	Data string          `json:"d,omitempty"` // hex of the input bytes
@@ -111,6 +111,8 @@ func (cs *c19Case) class() string {
 		return "clause:" + cs.Tpl
 	case "fn":
 		return "fn:" + cs.Form + ":" + cs.Fn
+	case "huge":
+		return "huge:" + cs.Fn + ":" + cs.Form
 	case "big":
 		if cs.Big != nil {
 			return "big:" + cs.Big.Format + ":" + cs.Big.Shape
@@ -230,7 +232,7 @@ func c19Replay(c *core.Ctx, payload json.RawMessage) {
 	if os.Getenv("C19_CHILD") != "" {
 		return
 	}
-	if c19CliReplay(c, payload) {
+	if c19CliReplay(c, payload) || c19ExtReplay(c, payload) {
 		return
 	}
 	var cs c19Case
@@ -736,6 +738,7 @@ func c19Families() []c19Family {
 		{"clause", c19EnumClauses},
 		{"fn-scalar", c19EnumScalar},
 		{"fn-set", c19EnumSetFunctions},
+		{"huge", c19EnumHuge}, // c19_huge.go
 		{"load-csv", c19EnumLoadCSV},
 		{"load-ltsv", c19EnumLoadLTSV},
 		{"load-json", c19EnumLoadJSON},
@@ -921,6 +924,8 @@ func (r *c19Runner) exec(cs *c19Case) {
 		r.execClause(cs)
 	case "fn":
 		r.execFn(cs)
+	case "huge":
+		r.execHuge(cs)
 	case "load", "big":
 		r.execLoad(cs)
 	default:
